@@ -23,6 +23,14 @@ CHECKS = {
   technique="Coq proof (induction over limb lists for every limb count N; the TryFrom guards are regenerated from the Rust source by the translator and re-proved) + differential correspondence for N = 0..5 in two build profiles",
   text="33 theorems C19_* (props/C19.v) for every limb count N: add/sub/mul/mul_two/sum return exactly the big-integer result and panic exactly when it is not representable; rem_div/div/rem exact, panic exactly on a zero divisor and never overflow internally; div_two, cmp, eq; try_from u64/u128 succeed exactly when the value fits (about the regenerated guards); BigUint, field-element-array and codec round trips; decode total, strict and unique. Hand-written limb model tied by 71k (quick) / 548k (thorough) cases x 2 profiles.",
   note="Known finding (not repaired, printed as KNOWN-FINDING): U32s<0> conversions of 0 (key u32s0-tryfrom-zero). Everything except the two TryFrom guards is hand-modelled; index sums i+j+k assumed not to overflow usize (N < 2^58). One extra extraction directive: Z.pow -> zarith power."),
+ "C03": dict(
+  technique="Coq proof by nested induction over the codec type grammar (unbounded depth) about a clause-for-clause model of the hand-written and derived BFieldCodec impls + differential correspondence on 267 concrete Rust types",
+  text="14 theorems C03_* (props/C03.v) for every type of the grammar (primitives, Option/Box/Vec/array/tuple, polynomials, structs, enums, the library's own structs) and every value / sequence: decode(encode v) = v, every accepted sequence re-encodes to itself (encoding injective, one accepted encoding per value), static length, closed-form layout lemmas (reverse field order, items in order, dynamic components length-prefixed). Hand-written model tied by 46k (quick) / 510k (thorough) cases x 2 profiles over 267 Rust types incl. zero-width item types.",
+  note="Codec model entirely hand-written (nothing translated). Rust types are a finite sample of the grammar; the theorem covers the grammar. Lists with >= 2^63 items and encodings >= 2^64 elements excluded by hypothesis."),
+ "C13": dict(
+  technique="Coq proof (totality, strictness and linear-cost theorems about the same codec model as C03) + differential correspondence on near-valid sequences with a counting allocator in the harness",
+  text="18 theorems C13_* (props/C13.v): decode never panics or overflows on canonical sequences shorter than 2^32; anything that is not the encoding of a typed value is rejected (truncated, extended, limb >= 2^32, bool/option tag > 1, unknown discriminant, inconsistent prefixes, polynomial trailing zero); allocation cost linear in the sequence length. Tied by 45k (quick) / 411k (thorough) near-valid / truncated / extended / huge-count sequences x 2 profiles, peak heap bytes per decode compared with the model cost.",
+  note="cost_linear carries the hypothesis 'no list whose item type has encoded width 0' ([n] is a valid 1-element encoding of an n-item Vec<PhantomData>): round trip and a linear bound cannot both hold there. The real allocator / Vec growth policy are outside the model (the comparison allows 512 bytes per model slot)."),
 }
 
 ORDER = ["C%02d" % i for i in range(1, 21)]
